@@ -192,6 +192,19 @@ def hd_xkey(h, c, xkey):
             t(lambda: o.PublicKey().ToAddress()), t(lambda: o.PublicKey().ToExtended())]
 
 
+@kind("hd.fromkey")
+def hd_fromkey(h, c):
+    """the SAME private key bytes for every coin (of the same key length): what a cache keyed by the key alone,
+       or by less than (key, every coin parameter), confuses"""
+    cf = _conf(h, c)
+    n = cf.Bip32Class().CurveType()
+    ln = ALL["EllipticCurveGetter"].FromType(n).PrivateKeyClass().Length()
+    priv = (bytes([0]) + SEED + SEED)[:ln]
+    o = ALL[h].FromPrivateKey(priv, _coin(h, c))
+    return [o.PublicKey().RawCompressed().ToHex(), t(lambda: o.PublicKey().ToAddress()),
+            t(lambda: o.PrivateKey().ToWif()), t(lambda: o.PublicKey().ToExtended())]
+
+
 @kind("conf.get")
 def conf_get(h, c):
     cf = _conf(h, c)
@@ -306,6 +319,42 @@ def mn_encode(fam, lang_enum, lang, entropy_hex, extra=None):
     return out
 
 
+@kind("mn.shared")
+def mn_shared(fam, lang_enum, mnemonics):
+    """ONE decoder and ONE validator object (automatic language) used for several mnemonics in a row, against a new
+       object per mnemonic: a self-checking operation (see selfcheck_bad)"""
+    d = _mn_obj(ALL[fam + "MnemonicDecoder"], lang_enum, None, None)
+    v = _mn_obj(ALL[fam + "MnemonicValidator"], lang_enum, None, None)
+    shared = [[t(lambda: d.Decode(m)), t(lambda: v.IsValid(m))] for m in mnemonics]
+    fresh = [[t(lambda: _mn_obj(ALL[fam + "MnemonicDecoder"], lang_enum, None, None).Decode(m)),
+              t(lambda: _mn_obj(ALL[fam + "MnemonicValidator"], lang_enum, None, None).IsValid(m))] for m in mnemonics]
+    return ["selfcheck", shared, fresh]
+
+
+@kind("defaults")
+def defaults(what):
+    """entry points called with their DEFAULT network / coin / version arguments"""
+    priv = SEED[:32]
+    if what == "wif":
+        w = ALL["WifEncoder"].Encode(priv)
+        return [w, list(ALL["WifDecoder"].Decode(w))]
+    if what == "monero":
+        return ALL["Monero"].FromSeed(SEED[:32]).PrimaryAddress()
+    if what == "deser":
+        x = ALL["Bip32Slip10Secp256k1"].FromSeed(SEED).PublicKey().ToExtended()
+        d = ALL["Bip32KeyDeserializer"].DeserializeKey(x)
+        return [x, d.KeyBytes(), d.IsPublic(), getters(d.KeyData())]
+    if what == "p2pkh":
+        pub = ALL["Bip32Slip10Secp256k1"].FromSeed(SEED).PublicKey().KeyObject()
+        return [ALL["P2PKHAddrEncoder"].EncodeKey(pub, net_ver=b"\x00"), ALL["EthAddrEncoder"].EncodeKey(pub),
+                ALL["TrxAddrEncoder"].EncodeKey(pub), ALL["XrpAddrEncoder"].EncodeKey(pub)]
+    if what == "b58":
+        return [ALL["Base58Encoder"].CheckEncode(priv), ALL["Base58Decoder"].CheckDecode(ALL["Base58Encoder"].CheckEncode(priv))]
+    if what == "bip38":
+        return None
+    raise KeyError(what)
+
+
 # ---- other wallets
 
 @kind("substrate")
@@ -417,6 +466,14 @@ def curve_keys(curve, priv_hex):
             t(lambda: cv.PublicKeyClass().FromBytes(unc).RawCompressed().ToHex()),
             t(lambda: cv.PublicKeyClass().FromBytes(comp[1:]).RawCompressed().ToHex()),
             t(lambda: cv.PublicKeyClass().IsValidBytes(unc[1:]))]
+
+
+@kind("curve.point")
+def curve_point(curve, enc_hex):
+    """coordinates of the point decoded from an encoding (two encodings may differ in the sign bit only)"""
+    cv = ALL["EllipticCurveGetter"].FromType(ALL["EllipticCurveTypes"][curve])
+    p = cv.PointClass().FromBytes(bytes.fromhex(enc_hex))
+    return [p.X(), p.Y(), p.RawEncoded().ToHex(), t(lambda: (p + p).RawEncoded().ToHex())]
 
 
 @kind("curve.parse")
@@ -559,6 +616,12 @@ def bad(what):
     if what == "cointype":
         return ALL["Bip49"].FromSeed(SEED, ALL["Bip44Coins"].BITCOIN)
     raise KeyError(what)
+
+
+def selfcheck_bad(result):
+    """a self-checking operation returns ["selfcheck", a, b] with a == b required"""
+    return (isinstance(result, list) and len(result) == 2 and result[0] == "ok" and isinstance(result[1], list)
+            and len(result[1]) == 3 and result[1][0] == "selfcheck" and result[1][1] != result[1][2])
 
 
 def run_op(spec):
@@ -924,8 +987,11 @@ def build_catalogue(rng, thorough, coins_per_hierarchy=12):
         if thorough or len(members) <= coins_per_hierarchy:
             chosen[h] = members
         else:
-            # always: the coins whose configuration class adds behaviour (option toggles); the rest sampled
-            special = [c for c in members if type(_conf(h, c)) is not plain]
+            # always: the coins whose configuration class adds behaviour (option toggles) or whose address
+            # parameters hold an object to be resolved per key (not a plain value); the rest sampled
+            special = [c for c in members if type(_conf(h, c)) is not plain or
+                       any(type(x).__module__.startswith("bip_utils") and not isinstance(x, (enum.Enum, type))
+                           for x in _conf(h, c).AddrParams().values())]
             rest = [c for c in members if c not in special]
             chosen[h] = special + rng.sample(rest, max(0, coins_per_hierarchy - len(special)))
     # a coin name sampled in one hierarchy is taken in every hierarchy that has it (coarse cache keys)
@@ -940,6 +1006,7 @@ def build_catalogue(rng, thorough, coins_per_hierarchy=12):
             tags = ["coin:" + c, "addrcls:" + cf.AddrClass().__name__]
             for k in ("hd.addr", "hd.keys", "hd.levels", "hd.pubonly", "conf.get", "conf.raw", "conf.viaobj", "addr.enc"):
                 add([k, h, c], tags)
+            add(["hd.fromkey", h, c], tags + ["samekey"], amb=True)
             r = run_op(["addr.enc", h, c])
             if r[0] == "ok" and decoder_of(cf.AddrClass()) is not None:
                 addrs[(h, c)] = r[1]
@@ -1055,6 +1122,18 @@ def build_catalogue(rng, thorough, coins_per_hierarchy=12):
             add(["mn.valid", fam, le, None, mn, None], tag, amb=True)
             add(["mn.decode", fam, le, a, mn, None], tag)
             add(["mn.decode", fam, le, b, mn, None], tag)
+    # one decoder / validator object for several mnemonics (languages in enum order, reversed, shared-word ones last)
+    for fam in fams:
+        le = fam + "Languages"
+        lst = per_enum.get(le, [])
+        if len({l for l, _ in lst}) < 2:
+            continue
+        ms = [m for _, m in lst]
+        short = [m for l, m in lst if l is not None][::2]
+        amb_ms = [m for l, m in lst if l is None]
+        for seq in (short + amb_ms, list(reversed(short)) + amb_ms, amb_ms + short, rng.sample(ms, min(len(ms), 12))):
+            if seq:
+                add(["mn.shared", fam, le, seq], ["mn:" + finder[fam]], amb=bool(amb_ms))
     # seed generators (BIP-39, Electrum, Monero, Algorand, Cardano, Substrate): mnemonic of the matching enum
     for (sg, le) in sgens:
         fam = le[:-len("Languages")]
@@ -1082,8 +1161,17 @@ def build_catalogue(rng, thorough, coins_per_hierarchy=12):
             continue
         for k in range(64):
             cand = (bytes([k]) + SEED * 2)[:n - 1] + bytes([k % 16])
-            if run_op(["curve.keys", m.name, cand.hex()])[0] == "ok":
+            r = run_op(["curve.keys", m.name, cand.hex()])
+            if r[0] == "ok":
                 add(["curve.keys", m.name, cand.hex()], ["curve"], how="semi")
+                # the same point from its compressed encoding and from the encoding with the other sign / parity
+                # (when that is a point too): inputs that differ in one bit
+                comp = bytes.fromhex(r[1][0][2:])
+                encs = [comp, comp[-32:], comp[:-1] + bytes([comp[-1] ^ 0x80]), comp[-32:-1] + bytes([comp[-1] ^ 0x80]),
+                        bytes([comp[0] ^ 1]) + comp[1:]]
+                for e in encs:
+                    if run_op(["curve.point", m.name, e.hex()])[0] == "ok":
+                        add(["curve.point", m.name, e.hex()], ["curve"], amb=True, how="semi")
                 break
     for m in ALL["Base58Alphabets"]:
         add(["b58", m.name, SEED[:21].hex()], ["codec"], how="semi")
@@ -1110,6 +1198,8 @@ def build_catalogue(rng, thorough, coins_per_hierarchy=12):
     for p in ("m/0'/1", "m/49'/2'/0'"):
         add(["slip32", p], ["codec"], how="hand")
     add(["spl"], ["codec"], how="hand")
+    for w in ("wif", "monero", "deser", "p2pkh", "b58"):
+        add(["defaults", w], ["codec", "defaults"], how="hand")
     for w in ("seed", "extkey", "depth", "path", "pubhard", "cointype"):
         add(["bad", w], ["bad"], how="hand")
     if thorough:
